@@ -15,7 +15,7 @@
    the hypothesis that names the excluded class. *)
 From HV Require Import Base.Prelude Base.Outcome Base.Bytes Spec.Parse Spec.Format Spec.FormatMsg
   Model.CodecMsg Model.CodecType Model.CodecLink Model.CodecAttr Model.CodecSuper
-  Proofs.ReaderSpecBase Proofs.ReaderSpecDataspace Proofs.ReaderSpecLayout Proofs.ReaderSpecLink Proofs.ReaderSpecSuper Proofs.ReaderSpecAttr Proofs.ReaderSpecType Proofs.ReaderSpecAttrFrame.
+  Proofs.ReaderSpecBase Proofs.ReaderSpecDataspace Proofs.ReaderSpecLayout Proofs.ReaderSpecLink Proofs.ReaderSpecSuper Proofs.ReaderSpecAttr Proofs.ReaderSpecType Proofs.ReaderSpecAttrFrame Proofs.ReaderSpecSuperOk.
 
 (* ------------------------------------------------------------------ dataspace (versions 1 and 2; scalar, simple, null;
    maximum extents).  The reader is not told the size of lengths: it infers 8- or 4-byte extents from the message length.
@@ -156,3 +156,29 @@ Theorem C06_reader_attribute_v3 : forall (lsz : nat) (pad_ok : bool) (bs : bytes
   err_or (at_agree a) (dec_attribute false bs).
 Proof. exact attribute_v3_reader_spec. Qed.
 Print Assumptions C06_reader_attribute_v3.
+
+(* ------------------------------------------------------------------ superblock with size of offsets = size of lengths = 8:
+   the class the refutations above leave.  For every file image the strict specification decoder accepts (signature, version,
+   reserved bytes, K values, flags, addresses, root symbol table entry / lookup3 checksum) the reader returns an error or the
+   same version, sizes, little-endian byte order and root group address; versions 2/3: base address and superblock extension
+   address; version 0: the cached B-tree / local heap addresses when the root entry's cache type is 1 (sb_agree).
+   Version 1 superblocks are an error for the reader. *)
+Theorem C06_reader_superblock_v2_v3 : forall (bs : bytes) (s : superblock_spec) (tg : list tag) (r : bytes),
+  spec_dec_superblock strict bs = Ok (s, tg, r) ->
+  sbs_version s = 2 \/ sbs_version s = 3 -> sbs_O s = 8 -> sbs_L s = 8 ->
+  err_or (sb_agree s) (dec_superblock bs).
+Proof. exact superblock_v23_reader_spec. Qed.
+Print Assumptions C06_reader_superblock_v2_v3.
+
+Theorem C06_reader_superblock_v0 : forall (bs : bytes) (s : superblock_spec) (tg : list tag) (r : bytes),
+  spec_dec_superblock strict bs = Ok (s, tg, r) ->
+  sbs_version s = 0 -> sbs_O s = 8 -> sbs_L s = 8 ->
+  err_or (sb_agree s) (dec_superblock bs).
+Proof. exact superblock_v0_reader_spec. Qed.
+Print Assumptions C06_reader_superblock_v0.
+
+(* version 0: the base address is reported as 0 whatever the superblock says (outside sb_agree for version 0) *)
+Theorem C06_reader_superblock_v0_base_refuted :
+  spec_view (sb0_base 512) = Ok (0, 8, 8, 512, 96) /\ reader_view (sb0_base 512) = Ok (0, 8, 8, 0, 96).
+Proof. exact superblock_v0_base_refuted. Qed.
+Print Assumptions C06_reader_superblock_v0_base_refuted.
